@@ -264,11 +264,11 @@ def objectiveAtFull (w : Wrapper) (expF logF : Rat → Rat) (pb : Problem) (m : 
   let r := objectFunc lo up none (if w.objLlScale then pb.llScale else 1) m v
   if w.negated then - r.1 else r.1
 
-/-- the optimiser's answer is one of its own (query, value) pairs -/
-def answerEvaluated (r : OptRun) : Bool :=
+/-- the optimiser's answer is one of its own (query, value) pairs (the value up to the rounding of `-ll/ll_scale`) -/
+def answerEvaluated (vtol : Rat) (r : OptRun) : Bool :=
   match r.final with
   | none => false
-  | some xf => r.history.any fun q => q.1 == xf.1 && q.2 == xf.2
+  | some xf => r.history.any fun q => q.1 == xf.1 && closeTol vtol q.2 xf.2
 
 /-- names of the clauses of C12 that FAIL on this run (empty = the run satisfies the property) -/
 def checkTrace (w : Wrapper) (expF logF : Rat → Rat) (pb : Problem) (m : ModelFn) (tol vtol : Rat) (r : WrapperRun) :
@@ -286,7 +286,7 @@ def checkTrace (w : Wrapper) (expF logF : Rat → Rat) (pb : Problem) (m : Model
       -- the two likelihood clauses are claimed under the hypothesis of C12_reported_is_ll_of_result: the optimiser answered with a
       -- point it evaluated and the value it got there (checked here on the trace; a third-party optimiser that answers otherwise
       -- is reported by the harness as such, not as a failure of the wrapper)
-      (if answerEvaluated r.run then
+      (if answerEvaluated vtol r.run then
         (match r.reported with
          | none => []
          | some f => if closeTol vtol (objectiveAtFull w expF logF pb m v) f then [] else ["ll_result_is_reported"]) ++
